@@ -105,6 +105,9 @@ func (u *Unit) assumeInvariants(st *State, ls *LoopSpec, bind map[string]Val) {
 }
 
 func (u *Unit) execFor(s *ast.ForStmt, st *State) []Outcome {
+	if !u.inSpec {
+		st.markReached(s)
+	}
 	if s.Init != nil {
 		outs := u.execStmt(s.Init, st)
 		if len(outs) == 0 {
@@ -225,6 +228,9 @@ func (u *Unit) bumpEpoch(st *State) {
 }
 
 func (u *Unit) execRange(s *ast.RangeStmt, st *State) []Outcome {
+	if !u.inSpec {
+		st.markReached(s)
+	}
 	xt := typeOf(u.info, s.X).Underlying()
 	switch t := xt.(type) {
 	case *types.Slice, *types.Array:
